@@ -4,3 +4,5 @@ set -e
 cd "$(dirname "$0")/harness"
 export CARGO_NET_OFFLINE=true
 cargo build --release --offline --bin vh
+cd ../harness-async
+cargo build --release --offline --bin vha
